@@ -193,9 +193,11 @@ class PureEval:
         self.ex, self.st, self.env, self.old_st = ex, st, env, old_st
         self.specenv: SpecEnv = ex.spec if ex is not None else None
         self.defs: List[Any] = []      # definedness side conditions (dict key present, index in range)
+        self.bound = tuple(bound or ())   # z3 constants bound by enclosing quantifiers (for lambda lifting)
 
-    def sub(self, env=None, st=None):
-        p = PureEval(self.ex, st or self.st, env if env is not None else self.env, self.old_st)
+    def sub(self, env=None, st=None, bound=None):
+        p = PureEval(self.ex, st or self.st, env if env is not None else self.env, self.old_st,
+                     bound=self.bound + tuple(bound or ()))
         p.defs = self.defs
         return p
 
@@ -363,19 +365,28 @@ class PureEval:
         body = self.sub(env=dict(self.env, **{g.target.id: S.wrap(src.elem, src.arr[i])})).ev(e.elt)
         bt = term_of(body)
         j = z3.Int("j!c")
-        arr = z3.Lambda([j], z3.If(z3.And(j >= 0, j < src.n), z3.substitute(bt, (i, j)), S.dflt(bt.sort())))
+        arr = S.lift_lambda(self.bound, j, z3.If(z3.And(j >= 0, j < src.n), z3.substitute(bt, (i, j)), S.dflt(bt.sort())))
         return SSeq(body.ty, src.n, arr)
 
     def quant(self, lam, ty, universal):
         if not isinstance(lam, ast.Lambda): raise Unsupported("spec: quantifier needs a lambda")
         names = [a.arg for a in lam.args.args]
-        tys = [S.parse_type(t.strip()) for t in ty.split(",")]
+        parts, depth, cur = [], 0, ""
+        for ch in ty:                              # split at top-level commas only: "int,tup[Id,seq[Id]]"
+            if ch == "[": depth += 1
+            if ch == "]": depth -= 1
+            if ch == "," and depth == 0:
+                parts.append(cur); cur = ""
+            else:
+                cur += ch
+        parts.append(cur)
+        tys = [S.parse_type(t.strip()) for t in parts]
         if len(names) != len(tys): raise Unsupported("spec: quantifier arity")
         vs = [S.fresh(n + "!q", S.sort_of(t)) for n, t in zip(names, tys)]
         env = dict(self.env)
         for n, t, v in zip(names, tys, vs):
             env[n] = S.wrap(t, v)
-        body = self.sub(env=env).truth(lam.body)
+        body = self.sub(env=env, bound=vs).truth(lam.body)
         return B(z3.ForAll(vs, body) if universal else z3.Exists(vs, body))
 
     def p_Call(self, e):
@@ -386,7 +397,7 @@ class PureEval:
                 return self.quant(e.args[0], ast.literal_eval(e.args[1]), n == "forall")
             if n == "old":
                 if self.old_st is None: raise Unsupported("spec: old() without an entry state")
-                return PureEval(self.ex, self.old_st, self.env, self.old_st).ev(e.args[0])
+                return PureEval(self.ex, self.old_st, self.env, self.old_st, bound=self.bound).ev(e.args[0])
             args = [self.ev(a) for a in e.args]
             if n == "implies": return B(z3.Implies(ops.truth(self.st, args[0]), ops.truth(self.st, args[1])))
             if n == "iff": return B(ops.truth(self.st, args[0]) == ops.truth(self.st, args[1]))
